@@ -155,6 +155,12 @@ func discharge(obls []*Obligation, workDir string, tier string, jobs int) {
 			} else {
 				o.Secs += d1
 			}
+			if o.Short && tier != "thorough" {
+				o.Status = "unknown"
+				o.Output = "not decided in the short stages (known finding: the long stages are skipped)"
+				finishObl(o, file)
+				return
+			}
 			type res struct {
 				status, out, name string
 				dur               float64
